@@ -797,9 +797,17 @@ class Explore:
         self.stats = {}
 
 
+# wall-clock instant (time.time()) after which every exploration of this process stops and reports a budget hit;
+# set by the runner for tiers that have an overall time budget
+GLOBAL_DEADLINE = None
+
+
 def explore(fn, max_paths=100000, deadline_s=None, timeout_ms=2000, max_enum=64):
     """Run ``fn(ctx)`` once per feasible path. Returns an Explore."""
     global CTX
+    if GLOBAL_DEADLINE is not None:
+        left = GLOBAL_DEADLINE - time.time()
+        deadline_s = max(0.0, left) if deadline_s is None else max(0.0, min(deadline_s, left))
     c = Ctx(timeout_ms=timeout_ms, max_enum=max_enum)
     prev = CTX
     CTX = c
